@@ -219,11 +219,13 @@ def fill(pat, vals):
     return ".".join(out)
 
 
-def rand_ops(rng, pats, deps, nops, guard=None):
+def rand_ops(rng, pats, deps, nops, guard=None, deep=False):
     """session-structured random walk; '@' is the session holding the lock"""
     ops = []
     replaced = set()
-    has_obj = any(SCHEMA[p][0] in "OP" for p in pats)     # the walker would emit whole entries: no LoadConfig / start-up
+    has_obj = any(SCHEMA[p][0] in "OP" for p in pats)
+    no_walk = has_obj and deep       # hidden (json:"-") fields are not part of an emitted entry's token: keep them apart
+    loaded = [False]                 # LoadConfig made every entry a recorded NewValue: no Set below entries until the next session
 
     def sid():
         return "@" if rng.random() < 0.9 else str(rng.choice([0, 1, 2, 3, 4, 7]))
@@ -239,6 +241,8 @@ def rand_ops(rng, pats, deps, nops, guard=None):
         path = fill(p, vals)
         if any(path.startswith(r + ".") for r in replaced):
             return      # nothing is Set below an entry that was Set as a whole earlier in the case (NewValue aliasing)
+        if loaded[0] and path.count(".") >= 2 and path.split(".")[0] in ("interfaces", "vrfs"):
+            return
         if SCHEMA[p][0] in "OP":
             replaced.add(path)
             if rng.random() < 0.8:
@@ -260,23 +264,26 @@ def rand_ops(rng, pats, deps, nops, guard=None):
 
     def block():
         ops.append("c")
+        loaded[0] = False
         for _ in range(rng.randint(1, 4)):
             one_set(rng.randrange(len(pats)), [rng.choice(WILDS), rng.choice(WILDS)])
         ops.append("m %s %s" % (sid(), rng.choice(FAULTS)))
 
-    if not guard and not has_obj and rng.random() < 0.15:
+    if not guard and not no_walk and rng.random() < 0.15:
         ops.append(boot_op(rng.choice(["0:-"] * 6 + ["1:-", "2:-", "0:t", "0:s", "0:R", "4:q1", "0:G", "0:G", "0:Ru"])))
     while len(ops) < nops:
         r = rng.random()
-        if r < 0.03 and not has_obj:
+        if r < 0.03 and not no_walk:
+            loaded[0] = loaded[0] or has_obj
             # with the MSS guard the model's validation parameter comes from the initial group: keep the groups
             ops.append(load_op(sid(), "k" if guard else rng.choice(["c", "n", "k", "m"])))
-        elif r < 0.04 and not guard and not has_obj:
+        elif r < 0.04 and not guard and not no_walk:
             ops.append(boot_op(rng.choice(FAULTS)))
         elif r < 0.35:
             block()
         elif r < 0.40:
             ops.append("c")
+            loaded[0] = False
         elif r < 0.72:
             for _ in range(rng.randint(1, 3)):
                 one_set(rng.randrange(len(pats)), [rng.choice(WILDS), rng.choice(WILDS)])
@@ -397,6 +404,13 @@ def boundary_cases():
                         "c", "s @ interfaces.eth1.ipv6 oenabled=b1;multicast=b1 0", "m @ 0:-", "c",
                         "s @ interfaces.eth1.ipv6 oenabled=b1;multicast=b1 0", "m @ 0:v", "c", "s @ interfaces.eth1.ipv6 omulticast=b1 0",
                         "s @ interfaces.eth2.ipv6 o- 0", "s @ interfaces.eth2.ipv6 i5 0", "m @ 2:-", "m @ 0:-", "c"])
+    # the walker emits whole entries (map entries and non-nil pointer fields) when their patterns have handlers
+    regw = ["reg", "5", "interfaces.<*>", "O", "1,2", "-", "0", "interfaces.<*>.ipv6", "P", "1,2,3", "-", "0",
+            "interfaces.<*>.mtu", "I", "1,2", "-", "0", "protocols.bgp.ipv4-unicast.networks.<*:prefix>", "E", "2,3,4,5", "-", "1",
+            "vrfs.<*>", "O", "1,2", "-", "0"]
+    out.append(regw + ["ops", boot_op("0:-"), "c", "s @ interfaces.eth2 %s 0" % o1.replace(hx("eth1"), hx("eth2")),
+                       "m @ 0:-", "c", "s @ interfaces.eth2.ipv6 oenabled=b1 0", "m @ 0:-", "c", "s @ vrfs.blue odescription=%s 0" % hx("cust"),
+                       load_op("@", "k"), "m @ 3:-", "m @ 0:-", boot_op("2:-"), "c", load_op("@", "n"), "m @ 0:-"])
     for col in (False,):
         out.append(rego + recipe_tokens(("deep", col)) + ["ops", "c", "s @ interfaces.eth1 %s 0" % o1, "m @ 0:-", "c",
                    "s @ interfaces.eth1.mtu i1 0", "m @ 0:-"])
@@ -476,7 +490,7 @@ def gen_cases(rng, tier, budget):
         elif rng.random() < 0.12:
             toks += recipe_tokens(("deep", rng.random() < 0.3))
         nops = rng.randint(4, 24)
-        toks += ["ops"] + rand_ops(rng, pats, deps, nops, guard)
+        toks += ["ops"] + rand_ops(rng, pats, deps, nops, guard, deep="deep" in toks)
         cases.append(" ".join(toks))
     return cases
 
